@@ -237,3 +237,5 @@ def run(ck):
     ck.run_rule("C14.table", "256-entry table: bijection, ASCII, KOI8-R, no foreign keys (exhaustive)", 400, rule_table)
     ck.run_rule("C14.fn", "encode/decode index the tables; error position; registration", 30, rule_functions)
     ck.run_rule("P2", "every .encode(charset) on program text is guarded by a reporting handler", 3, rule_P2)
+    from ..rules import deliver
+    ck.run_rule("R.deliver", "an emitted 'invalid-character' error reaches the handler at once and fails the run (it is never held back or withdrawn)", 6, deliver.rule_deliver)
